@@ -105,7 +105,8 @@ func runOne(seed int64, mode string) (msg string) {
 	rng := rand.New(rand.NewSource(seed))
 	st := memory.NewStorage()
 	repo, _ := git.Init(st, nil)
-	paths := []string{"a.go", "b.py", "vendor/x.go", "dir/c.go", "dir/sub/d.txt", "dir/e.h", "f.h", "sm", "dir/sm2", "g.txt", "dir/sm3", "lib/sm"}
+	paths := []string{"a.go", "b.py", "vendor/x.go", "dir/c.go", "dir/sub/d.txt", "dir/e.h", "f.h", "sm", "dir/sm2", "g.txt", "dir/sm3", "lib/sm",
+		"vendorx.go", "vendor.md"} // the last two share the text of a blacklisted prefix without lying under that directory
 	// submodule paths; with FailOnMissingSubmodules, sm and dir/sm3 are listed in .gitmodules, dir/sm2 and lib/sm are not
 	// (lib/sm has the base name of a listed one)
 	isSub := map[string]bool{"sm": true, "dir/sm2": true, "dir/sm3": true, "lib/sm": true}
@@ -124,6 +125,12 @@ func runOne(seed int64, mode string) (msg string) {
 	switch mode {
 	case "prefix":
 		td.SkipFiles = []string{"vendor/", "dir/sub"}
+		if rng.Intn(2) == 0 {
+			// the same blacklist given the way the command line gives it: through Configure; the prefixes are taken literally
+			td.SkipFiles = nil
+			td.Configure(map[string]interface{}{items.ConfigTreeDiffEnableBlacklist: true,
+				items.ConfigTreeDiffBlacklistedPrefixes: []string{"vendor/", "dir/sub"}})
+		}
 	case "regex":
 		// also patterns that match the empty name of the absent side of an insertion/deletion (defect D17)
 		td.NameFilter = regexp.MustCompile([]string{`\.(go|h)$`, `\.(go|h)$`, `^(a\.go)?$`, `^$`, `^(dir/.*)?$`}[rng.Intn(5)])
@@ -307,7 +314,8 @@ func runOne(seed int64, mode string) (msg string) {
 			pass := true
 			switch mode {
 			case "prefix":
-				for _, pre := range td.SkipFiles {
+				// the prefixes as configured (not as the item stored them)
+				for _, pre := range []string{"vendor/", "dir/sub"} {
 					if strings.HasPrefix(name, pre) {
 						pass = false
 					}
